@@ -517,7 +517,7 @@ def compare_reads(exp, got):
 #        env = EnvironHeaders, hs = HeaderSet.   per: None | "key" | "index" | "slice"
 # =====================================================================================
 
-MAPS = {"md", "cmd"}
+MAPS = {"md", "cmd", "cmdx"}
 HDRS = {"hd", "env"}
 ALLK = MAPS | HDRS | {"hs"}
 
@@ -562,6 +562,7 @@ READ_SLICES = [(0, 1), (1, None), (None, None), (None, -1), (5, 9), (-2, None), 
 READ_CFG = {
     "md": {"key": ["a", "A", "b", "zz"]},
     "cmd": {"key": ["a", "A", "b", "zz"]},
+    "cmdx": {"key": [1, 2, 3, "a", "b", "c", "zz"]},          # combined dicts of any width / nesting
     "hd": {"key": ["a", "A", "b", "B", "zz"], "index": READ_INDEXES, "slice": READ_SLICES},
     "env": {"key": ["X-A", "x-a", "B", "Content-Type", "content-type", "Content-Length", "Request-Method", "Zz"],
             "index": READ_INDEXES, "slice": READ_SLICES},
@@ -588,10 +589,10 @@ def reads_real(kind, o):
         else:
             for a in cfg[per]:
                 out[f"{name}:{a}"] = call(lambda: fn(o, a))
-    if kind == "cmd":
+    if kind in ("cmd", "cmdx"):
         for name in ("iter", "keys"):             # keys() is a set: order is not part of the model
             if out[name][0] == "ok":
-                out[name] = ("ok", sorted(out[name][1]))
+                out[name] = ("ok", sorted(out[name][1], key=repr))
     return out
 
 
@@ -901,38 +902,40 @@ CMD_UNDER_OPS = [o for o in MD_OPS if o[0] in ("setitem", "add", "delitem", "pop
 CMD_OPS = [("d1",) + o for o in CMD_UNDER_OPS] + [("d2",) + o for o in CMD_UNDER_OPS] + [("self",) + o for o in MD_MUT_OPS]
 
 
-def cmd_reads_model(d1, d2):
+def cmd_reads_model(*dicts, probes=None, pairs=None):
+    probes = MD_READ_KEYS if probes is None else probes
     okv = lambda v: ("ok", v)  # noqa: E731
     merged = {}
-    for d in (d1, d2):
+    for d in dicts:
         for k, l in d.items():
             merged.setdefault(k, []).extend(l)
     keys = list(merged)
     out = {
         "len": okv(len(keys)),
         "bool": okv(bool(keys)),
-        "iter": okv(sorted(keys)),
-        "keys": okv(sorted(keys)),
+        "iter": okv(sorted(keys, key=repr)),
+        "keys": okv(sorted(keys, key=repr)),
         "values": okv([merged[k][0] for k in keys]),
         "items": okv([(k, merged[k][0]) for k in keys]),
-        "items_multi": okv([(k, v) for d in (d1, d2) for k, l in d.items() for v in l]),
+        "items_multi": okv([(k, v) for d in dicts for k, l in d.items() for v in l] if pairs is None
+                           else [p for ps in pairs for p in ps]),
         "lists": okv([(k, list(merged[k])) for k in keys]),
         "listvalues": okv([list(merged[k]) for k in keys]),
         "to_dict": okv({k: merged[k][0] for k in keys}),
         "to_dict_flat_false": okv({k: list(merged[k]) for k in keys}),
         "eq_self": okv((True, False)),
     }
-    for k in MD_READ_KEYS:
+    for k in probes:
         l = merged.get(k)
         has = bool(l)
         first = l[0] if has else None
-        out["contains:" + k] = okv(k in merged)
-        out["getitem:" + k] = okv(first) if has else ("exc", "KeyError")
-        out["get:" + k] = okv(first) if has else okv(None)
-        out["get_default:" + k] = okv(first) if has else okv("D")
+        out[f"contains:{k}"] = okv(k in merged)
+        out[f"getitem:{k}"] = okv(first) if has else ("exc", "KeyError")
+        out[f"get:{k}"] = okv(first) if has else okv(None)
+        out[f"get_default:{k}"] = okv(first) if has else okv("D")
         # type conversion: first value of the first dict that has the key; when it does not convert the
         # implementation falls through to the next dict, the base-class documentation says "default".
-        firsts = [d[k][0] for d in (d1, d2) if d.get(k)]
+        firsts = [d[k][0] for d in dicts if d.get(k)]
         convs = [conv_int(v) for v in firsts]
         good = [c[1] for c in convs if c[0] == "ok"]
         if not firsts:
@@ -942,10 +945,10 @@ def cmd_reads_model(d1, d2):
         else:
             a = Alt((okv(None),) + ((okv(good[0]),) if good else ()))
             b = Alt((okv("D"),) + ((okv(good[0]),) if good else ()))
-        out["get_type:" + k] = a
-        out["get_default_type:" + k] = b
-        out["getlist:" + k] = okv(list(l or []))
-        out["getlist_type:" + k] = okv([c[1] for c in map(conv_int, l or []) if c[0] == "ok"])
+        out[f"get_type:{k}"] = a
+        out[f"get_default_type:{k}"] = b
+        out[f"getlist:{k}"] = okv(list(l or []))
+        out[f"getlist_type:{k}"] = okv([c[1] for c in map(conv_int, l or []) if c[0] == "ok"])
     return out
 
 
@@ -1057,6 +1060,92 @@ def cmd_state_checks(state, others):
         if o == state and not eq:
             out.append(viol(fam, "eq-self", "-", other=o, exp=True, got=False, **base))
     return out
+
+
+# ---- CombinedMultiDict of any width (0..3 members) and nesting (a member may itself be combined, immutable
+# or a FileMultiDict).  shape = ("md"|"imd"|"fmd", rep) | ("cmb", (shape, ...))
+
+def cmbx_build(shape):
+    kind, data = shape
+    if kind == "cmb":
+        return CombinedMultiDict([cmbx_build(x) for x in data])
+    pairs = [(k, v) for k, l in data for v in l]
+    return {"md": MultiDict, "imd": ImmutableMultiDict, "fmd": FileMultiDict}[kind](pairs)
+
+
+def cmbx_model(shape):
+    """what a member looks like from outside: an insertion-ordered key -> list dict"""
+    kind, data = shape
+    if kind != "cmb":
+        return {k: list(l) for k, l in data}
+    merged = {}
+    for x in data:
+        for k, l in cmbx_model(x).items():
+            merged.setdefault(k, []).extend(l)
+    return merged
+
+
+def cmbx_pairs(shape):
+    """items(multi=True) of a member: a plain dict groups by key, a combined one concatenates its members"""
+    kind, data = shape
+    if kind != "cmb":
+        return [(k, v) for k, l in data for v in l]
+    return [p for x in data for p in cmbx_pairs(x)]
+
+
+def cmbx_check(shape):
+    fam = "CombinedMultiDict"
+    shape = thaw(shape)
+    out = []
+    base = dict(kind="cmbx", state=shape, op=("reads",))
+    try:
+        c = cmbx_build(shape)
+    except Exception as e:  # noqa: BLE001
+        out.append(viol(fam, "build", "ctor", exp="an instance", got=cat(e), **base))
+        return out
+    members = [cmbx_model(x) for x in shape[1]]
+    mpairs = [cmbx_pairs(x) for x in shape[1]]
+    probes = READ_CFG["cmdx"]["key"]
+    for name, e, g in compare_reads(cmd_reads_model(*members, probes=probes, pairs=mpairs), reads_real("cmdx", c)):
+        out.append(viol(fam, "read:" + name.split(":")[0], "shape", read=name, exp=e, got=g, **base))
+    # the reads agree with each other as well (whatever the model says)
+    try:
+        n = len(c)
+        facts = (len(list(c)), len(list(c.keys())), len(list(c.values())), len(list(c.lists())), len(c.to_dict(flat=False)),
+                 len({k for k, _v in c.items(multi=True)}))
+        if any(f != n for f in facts) or dict(c.lists()) != {k: c.getlist(k) for k in c}:
+            out.append(viol(fam, "reads-inconsistent", "shape", exp=n, got=facts, **base))
+    except Exception as e:  # noqa: BLE001
+        out.append(viol(fam, "reads-inconsistent", "shape", exp="consistent reads", got=cat(e), **base))
+    return out
+
+
+def cmbx_shapes(tier):
+    big = tier == "thorough"
+    for ks in ((1, 2, 3), ("a", "b", "c")):
+        leaves = [()] + [((k, ("x",)),) for k in ks] + [((k, ("x", "y")),) for k in ks[:2]]
+        leaves += [((k1, ("x",)), (k2, ("y",))) for k1 in ks for k2 in ks if k1 != k2]
+        if big:
+            leaves += [tuple((k, ("x",)) for k in perm) for perm in itertools.permutations(ks)]
+        md = [("md", l) for l in leaves]
+        for n in range(4):
+            for ms in itertools.product(md, repeat=n):
+                yield ("cmb", ms)
+        # member classes
+        for a, b in itertools.product(leaves, repeat=2):
+            for ka, kb in (("imd", "md"), ("md", "fmd"), ("fmd", "imd"), ("imd", "imd")):
+                yield ("cmb", ((ka, a), (kb, b)))
+        # nesting: a combined dict as the only / first / last / middle member
+        for a, b in itertools.product(md, repeat=2):
+            inner = ("cmb", (a, b))
+            yield ("cmb", (inner,))
+            yield ("cmb", (("cmb", (inner,)),))
+            for c in md:
+                yield ("cmb", (inner, c))
+                yield ("cmb", (c, inner))
+                if big:
+                    yield ("cmb", (c, inner, c))
+                    yield ("cmb", (inner, ("cmb", (c, a))))
 
 
 # =====================================================================================
@@ -2329,6 +2418,7 @@ def units(tier):
     u += [("hs", None, c) for c in chunks(sst, 16)]
     est = env_states(bound("EnvironHeaders", tier))
     u += [("env", None, c) for c in chunks(est, 16)]
+    u += [("cmbx", None, c) for c in chunks(list(cmbx_shapes(tier)), 400)]
     u.append(("imm", None, None))
     specs = list(ctor_specs(bound("ctor", tier)))
     for target in ("MultiDict", "ImmutableMultiDict", "Headers"):
@@ -2464,6 +2554,16 @@ def run_unit(unit, R, tier):
                 if succ != st:
                     R.nontrivial(("env", st, op))
         R.sample({"family": "EnvironHeaders", "environ": payload[-1]})
+    elif kind == "cmbx":
+        for shape in payload:
+            R.ev()
+            R.count("executions")
+            R.count("states")
+            R.use("cmbx:%d" % len(shape[1]))
+            if any(x[0] == "cmb" for x in shape[1]):
+                R.use("cmbx:nested")
+            emit(R, cmbx_check(shape))
+        R.sample({"family": "CombinedMultiDict", "shape": payload[-1]})
     elif kind == "imm":
         R.use("family:immutables")
         R.ev()
@@ -2507,7 +2607,8 @@ def run_unit(unit, R, tier):
 def finalize(R, tier):
     need = {"family:MultiDict", "family:FileMultiDict", "family:ImmutableMultiDict", "family:CombinedMultiDict",
             "family:Headers", "family:HeaderSet", "family:EnvironHeaders", "family:immutables", "mdstate:MultiDict",
-            "ctorstate", "hsctor", "hist:MultiDict", "hist:Headers", "hist:HeaderSet"}
+            "ctorstate", "hsctor", "hist:MultiDict", "hist:Headers", "hist:HeaderSet",
+            "cmbx:0", "cmbx:1", "cmbx:2", "cmbx:3", "cmbx:nested"}
     for fam, ops in (("MultiDict", MD_OPS), ("FileMultiDict", FMD_OPS)):
         for n in {o[0] for o in ops}:
             if ("op", fam, n, "ok") not in R.used and ("op", fam, n, "viol") not in R.used:
@@ -2553,6 +2654,8 @@ def _rerun(rec):
         return imd_state_checks(rec["state"], [rec["other"]] if "other" in rec else [rec["state"]])
     if k == "cmd":
         return cmd_transition(rec["state"], rec["op"])[0]
+    if k == "cmbx":
+        return cmbx_check(rec["state"])
     if k == "cmdstate":
         return cmd_state_checks(rec["state"], [rec.get("other", rec["state"])])
     if k == "hd":
